@@ -20,6 +20,7 @@ CONSTANTS
  MaxExtraH <- MC_MaxExtraH
  RandChoices <- MC_RandChoices
  Msg <- MC_Msg
+ Sweep <- MC_Sweep
  EMIT <- MC_EMIT
 INIT Init
 NEXT Next
